@@ -18,6 +18,12 @@ Vocabulary (Lemmas/PdoColl.lean):
   `Item.final` — the device's PDO afterwards: unchanged for an untouched one, else `finalDev`;
   `Item.out` — what `PdoMap.save` returns (mapping, COB-IDs subscribed to);
 * `Apart ds` — the PDOs of the device are different objects (no PDO owns an object of a later one);
+* subscriptions: `Net.Subs` is `Network.subscribers` (the C10 model), `abs t j` the list of callbacks
+  subscribed to CAN id `j` (an absent key and an empty list both give `[]`), `NodupAll` "no callback
+  twice in a list" (an invariant of every table built through `Network.subscribe`, C10);
+  `mapCb o isTx n` — `on_message` of map `(isTx, n)` of node object `o`; `MapSt.subs` — the COB-IDs a
+  map handed to `network.subscribe` (by `read`, `save` or `subscribe`); `tableAfter o t visited` — the
+  table after the subscribe calls of the maps `visited`, starting from the table `t`;
 * `planAll ms ns` — concatenation, in list order, of the plans of the maps whose COB-ID is set, the
   mappings extended by `ns` dummy entries (`ns` all zero unless a device refuses to zero a count).
 -/
@@ -27,6 +33,7 @@ import CanopenModel.Spec.StrictPdoDevice
 import CanopenProofs.Lemmas.PdoConfig
 import CanopenProofs.Lemmas.PdoStrict
 import CanopenProofs.Lemmas.PdoColl
+import CanopenProofs.Lemmas.Network
 import CanopenProofs.C09
 
 namespace Canopen.C09
@@ -540,5 +547,129 @@ example :
 
 example : ((pdoMaps true [⟨true, 3, exOd, Cfg.fresh, []⟩, ⟨false, 1, exOd, Cfg.fresh, []⟩,
     ⟨true, 1, exOd, Cfg.fresh, []⟩]).map (·.n)) = [1, 3] := by decide +kernel
+
+/-! ## T subscribe_independent_of_table -/
+
+section subs
+open Canopen.Net (Subs Cb subscribeMany)
+open Canopen.C10 (abs NodupAll)
+
+theorem count_one_of_mem : ∀ {l : List Cb}, l.Nodup → ∀ {x : Cb}, x ∈ l → l.count x = 1 := by
+  intro l
+  induction l with
+  | nil => intro _ x hx; cases hx
+  | cons a l ih =>
+    intro h x hx
+    obtain ⟨ha, hl⟩ := List.nodup_cons.mp h
+    rw [List.count_cons]
+    by_cases e : a = x
+    · subst e
+      simp [List.count_eq_zero.mpr ha]
+    · have hx' : x ∈ l := by
+        rcases List.mem_cons.mp hx with h' | h'
+        · exact absurd h'.symm e
+        · exact h'
+      simp [e, ih hl hx']
+
+/-- **Subscribing does not depend on what the subscriber table held before.**  Whatever
+    `Network.subscribers` contained (no entry for the COB-ID, an entry with an empty list left by an
+    earlier unsubscribe, an application listener, the map of another node object consuming the same
+    PDO, the map itself from an earlier call): after the maps `visited` made their
+    `network.subscribe(cob, on_message)` calls (through `read()`, `save()`, `PdoMap.subscribe()` or
+    `PdoBase.subscribe()`), each of them is among the subscribers of every COB-ID it subscribed to
+    **exactly once**; every list still starts with what it held before, in the same order (no
+    foreign subscription is lost or moved); and the number of occurrences of any other callback —
+    foreign ones, maps that did not subscribe — is what it was, in every list. -/
+theorem subscribe_independent_of_table (o : Nat) (s : Subs) (hs : NodupAll (abs s))
+    (visited : List MapSt) :
+    (∀ m ∈ visited, ∀ c ∈ m.subs,
+      (abs (tableAfter o s visited) c).count (mapCb o m.isTx m.n) = 1) ∧
+    (∀ j, abs s j <+: abs (tableAfter o s visited) j) ∧
+    (∀ j x, (∀ m ∈ visited, x = mapCb o m.isTx m.n → j ∉ m.subs) →
+      (abs (tableAfter o s visited) j).count x = (abs s j).count x) ∧
+    NodupAll (abs (tableAfter o s visited)) := by
+  unfold tableAfter
+  refine ⟨?_, fun j => subscribeMany_prefix s _ j, ?_, C10.nodup_subscribeMany s _ hs⟩
+  · intro m hm c hc
+    rw [subscribeMany_count]
+    split
+    · exact count_one_of_mem (hs c) ‹_›
+    · have : (c, mapCb o m.isTx m.n) ∈ subsCalls o visited :=
+        List.mem_flatMap.mpr ⟨m, hm, List.mem_map.mpr ⟨c, hc, rfl⟩⟩
+      rw [if_pos this]
+  · intro j x h
+    rw [subscribeMany_count]
+    split
+    · rfl
+    · rename_i hx
+      have : (j, x) ∉ subsCalls o visited := by
+        intro hmem
+        obtain ⟨m, hm, hin⟩ := List.mem_flatMap.mp hmem
+        obtain ⟨c, hcs, heq⟩ := List.mem_map.mp hin
+        simp only [Prod.mk.injEq] at heq
+        obtain ⟨e1, e2⟩ := heq
+        subst e1
+        exact h m hm e2.symm hcs
+      rw [if_neg this, List.count_eq_zero.mpr hx]
+
+/-- **`PdoBase.subscribe()`** (`node.rpdo/tpdo/pdo.subscribe()`, `setup_pdos(upload=False)`) on the
+    maps `sel` of a node (each key once), from **any** prior subscriber table: every map that is
+    enabled and has a COB-ID is subscribed to it exactly once; a map that is not enabled is not
+    subscribed by the call (its count is unchanged in every list); what was subscribed before is
+    still there, in order; and no other callback is added or removed anywhere. -/
+theorem collection_subscribe (o : Nat) (s : Subs) (hs : NodupAll (abs s)) (sel : List MapSt)
+    (hkeys : ∀ a ∈ sel, ∀ b ∈ sel, a.isTx = b.isTx → a.n = b.n → a = b)
+    (hfresh : ∀ m ∈ sel, m.subs = []) :
+    (∀ m ∈ sel, ∀ c, m.cfg.enabled = true → m.cfg.cob = some c →
+      (abs (tableAfter o s (sel.map MapSt.subscribe)) c).count (mapCb o m.isTx m.n) = 1) ∧
+    (∀ m ∈ sel, m.cfg.enabled = false → ∀ j,
+      (abs (tableAfter o s (sel.map MapSt.subscribe)) j).count (mapCb o m.isTx m.n)
+        = (abs s j).count (mapCb o m.isTx m.n)) ∧
+    (∀ j, abs s j <+: abs (tableAfter o s (sel.map MapSt.subscribe)) j) ∧
+    (∀ j x, (∀ m ∈ sel, x ≠ mapCb o m.isTx m.n) →
+      (abs (tableAfter o s (sel.map MapSt.subscribe)) j).count x = (abs s j).count x) := by
+  obtain ⟨h1, h2, h3, _⟩ := subscribe_independent_of_table o s hs (sel.map MapSt.subscribe)
+  refine ⟨?_, ?_, h2, ?_⟩
+  · intro m hm c he hc
+    have := h1 (MapSt.subscribe m) (List.mem_map.mpr ⟨m, hm, rfl⟩) c
+      (by simp [MapSt.subscribe, subscribeCalls, he, hc])
+    simpa [MapSt.subscribe] using this
+  · intro m hm he j
+    refine h3 j _ ?_
+    intro m' hm' heq
+    obtain ⟨m0, hm0, rfl⟩ := List.mem_map.mp hm'
+    obtain ⟨e1, e2⟩ := mapCb_inj o _ _ _ _ heq
+    have : m = m0 := hkeys m hm m0 hm0 (by simpa [MapSt.subscribe] using e1)
+      (by simpa [MapSt.subscribe] using e2)
+    subst this
+    simp [MapSt.subscribe, subscribeCalls, he, hfresh m hm]
+  · intro j x hx
+    refine h3 j x ?_
+    intro m' hm' heq
+    obtain ⟨m0, hm0, rfl⟩ := List.mem_map.mp hm'
+    exact absurd (by simpa [MapSt.subscribe] using heq) (hx m0 hm0)
+
+/-- PDO linking: a map of another node object already listens on 183h, an application listener on
+    184h, and 304h was subscribed and unsubscribed before (the key stays with an empty list) -/
+def exTable : Subs :=
+  ((Net.unsubscribe (Net.subscribe (Net.subscribe (Net.subscribe ⟨fun _ => none⟩
+    0x183 (mapCb 2 true 1)) 0x184 (.user 1)) 0x304 (.user 0)) 0x304 (some (.user 0))).getD
+      ⟨fun _ => none⟩)
+
+/-- RPDO1 (183h, enabled), RPDO2 (304h, disabled), TPDO1 (184h, enabled) of node object 1 -/
+def exMaps : List MapSt :=
+  [⟨false, 1, exOd, { exCfg with cob := some 0x183 }, []⟩,
+   ⟨false, 2, exOd, { exCfg with cob := some 0x304, enabled := false }, []⟩,
+   ⟨true, 1, exOd, { exCfg with cob := some 0x184 }, []⟩]
+
+example : (exTable.get 0x304, exTable.get 0x305) = (some [], none) := by decide +kernel
+
+example :
+    (abs (tableAfter 1 exTable (exMaps.map MapSt.subscribe)) 0x183,
+     abs (tableAfter 1 exTable (exMaps.map MapSt.subscribe)) 0x184,
+     abs (tableAfter 1 exTable (exMaps.map MapSt.subscribe)) 0x304) =
+    ([mapCb 2 true 1, mapCb 1 false 1], [.user 1, mapCb 1 true 1], []) := by decide +kernel
+
+end subs
 
 end Canopen.C09
